@@ -274,6 +274,24 @@ def _callee_params(call: ast.Call) -> Optional[list[str]]:
     return ent[0]
 
 
+def order_index(fn: ast.AST) -> dict[int, int]:
+    """id(node) -> position in a depth-first POST-order walk of fn in source order: an expression's operands come
+    before the expression itself, earlier statements before later ones - the execution order of straight-line code.
+    Positions, unlike line numbers, stay meaningful when code was substituted in from another place (canon K9)."""
+    out: dict[int, int] = {}
+    counter = [0]
+
+    def rec(n):
+        for c in ast.iter_child_nodes(n):
+            rec(c)
+        if not isinstance(n, (ast.expr_context, ast.operator, ast.cmpop, ast.boolop, ast.unaryop)):
+            out[id(n)] = counter[0]
+            counter[0] += 1
+
+    rec(fn)
+    return out
+
+
 def kwarg(call: ast.Call, name: str) -> Optional[ast.AST]:
     """The argument bound to parameter *name*: by keyword, or - for a certain package callee - by position."""
     for kw in call.keywords:
